@@ -7,11 +7,20 @@
       class  ::= (<mod> qn alias|none unimpl inner (<classid> …) (<mod> …))      classid ::= (<mod> qn)
       op     ::= (import <mod>) | (get <classid> <ref> (<mod> …))            ref ::= (a n) | (q <mod> qn)
       result ::= ok | notfound | (err e) | (ok <classid>) | bad-order
+  (multi <cfg> index group sel kProvider kParams kPriority prio0 <cfg>|none)   → (ok ((ref prio <params table>) …)) | missing | malformed
+  (mode <cfg> index group kDefault kApply kEval kProvider kParams <cfg>|none) → (ok <resolved> <resolved>) | missing | malformed
+      resolved ::= (<provider cfg | none> <params table>)
+  (bankt (<clsstmt> …) (<tmodule> …) (<op> …))        → (<result> …)      the class flags are computed from the class table
+      clsstmt ::= (abc|noabc ((name <attr>) …) (base …) (mro …))   attr ::= (f true|false) | (c k) | o
+      tmodule ::= (<mod> (sub …) (<prov> …))         prov ::= (<mod> qn alias|none k (<classid> …) (<mod> …))
+  (abstract (<clsstmt> …))                            → ((inspect ext (abstract-name …)) …)   one entry per class statement
   cfg ::= (s n) | (l n …) | (t (k <cfg>) …)
 -/
 import ForML.Model.Sexp
 import ForML.Model.Conf
+import ForML.Model.ConfSection
 import ForML.Model.Bank
+import ForML.Model.BankAbc
 open ForML
 
 namespace C20Driver
@@ -36,6 +45,19 @@ partial def ofCfg : Cfg → Sexp
   | .table t =>
     let es := t.foldl (fun acc e => insertSorted (e.1, ofCfg e.2) acc) []
     Sexp.list (Sexp.atom "t" :: es.map (fun e => Sexp.list [Sexp.ofNat e.1, e.2]))
+
+def optCfg? : Sexp → Option (Option Cfg)
+  | .atom "none" => some none
+  | x => (cfg? x).map some
+
+def ofSecErr : SecErr → Sexp
+  | .missing => .atom "missing"
+  | .malformed => .atom "malformed"
+
+def ofResolved (r : Resolved) : Sexp :=
+  .list [(match r.1 with
+    | some p => ofCfg p
+    | none => .atom "none"), ofCfg (.table r.2)]
 
 open ForML.Bank
 
@@ -64,6 +86,39 @@ def class? : Sexp → Option ClassDef
 def module? : Sexp → Option (Mod × ModuleDef)
   | .list [m, subs, .list cs] => do pure (← mod? m, ⟨← subs.natList?, ← cs.mapM class?⟩)
   | _ => none
+
+def attr? : Sexp → Option Attr
+  | .list [.atom "f", b] => (bool? b).map .func
+  | .list [.atom "c", k] => k.nat?.map .cls
+  | .atom "o" => some .other
+  | _ => none
+
+def clsStmt? : Sexp → Option ClsStmt
+  | .list [abc, .list ns, bases, mro] => do
+    let a ← (match abc with
+      | .atom "abc" => some true
+      | .atom "noabc" => some false
+      | _ => none)
+    let ns ← ns.mapM (fun (e : Sexp) => match e with
+      | Sexp.list [n, v] => do pure ((← n.nat?), (← attr? v))
+      | _ => none)
+    pure ⟨a, ns, ← bases.natList?, ← mro.natList?⟩
+  | _ => none
+
+def prov? : Sexp → Option ProvStmt
+  | .list [m, q, a, k, .list ps, .list paths] => do
+    pure ⟨⟨← mod? m, ← q.nat?⟩, ← optNat? a, ← k.nat?, ← ps.mapM classId?, ← paths.mapM mod?⟩
+  | _ => none
+
+def tmodule? : Sexp → Option (Mod × ModuleT)
+  | .list [m, subs, .list cs] => do pure (← mod? m, ⟨← subs.natList?, ← cs.mapM prov?⟩)
+  | _ => none
+
+def ofBool (b : Bool) : Sexp := .atom (if b then "true" else "false")
+
+def insertNat (n : Nat) : List Nat → List Nat
+  | [] => [n]
+  | x :: r => if n ≤ x then n :: x :: r else x :: insertNat n r
 
 def ref? : Sexp → Option Ref
   | .list [.atom "a", n] => n.nat?.map .alias
@@ -117,6 +172,33 @@ def step : Sexp → Sexp
       | .error .missing => .atom "missing"
       | .error .malformed => .atom "malformed"
     | _, _, _, _, _ => .atom "bad-op"
+  | .list [.atom "multi", c, idx, g, sel, kp, kq, kr, prio0, ex] =>
+    match cfg? c, [idx, g, sel, kp, kq, kr, prio0].mapM Sexp.nat?, optCfg? ex with
+    | some c, some [idx, g, sel, kp, kq, kr, prio0], some ex =>
+      match resolveMulti c idx g sel kp kq kr prio0 ex with
+      | .ok es => .list [.atom "ok", .list (es.map (fun e =>
+          .list [Sexp.ofNat e.ref, Sexp.ofNat e.prio, ofCfg (.table e.params)]))]
+      | .error e => ofSecErr e
+    | _, _, _ => .atom "bad-op"
+  | .list [.atom "mode", c, idx, g, kd, ka, ke, kp, kq, ex] =>
+    match cfg? c, [idx, g, kd, ka, ke, kp, kq].mapM Sexp.nat?, optCfg? ex with
+    | some c, some [idx, g, kd, ka, ke, kp, kq], some ex =>
+      match resolveMode c idx g kd ka ke kp kq ex with
+      | .ok (x, y) => .list [.atom "ok", ofResolved x, ofResolved y]
+      | .error e => ofSecErr e
+    | _, _, _ => .atom "bad-op"
+  | .list [.atom "bankt", .list cs, .list ms, .list ops] =>
+    match cs.mapM clsStmt?, ms.mapM tmodule?, ops.mapM op? with
+    | some cs, some wt, some ops => .list (runOps (WorldT.toWorld (build cs) wt) St.empty ops)
+    | _, _, _ => .atom "bad-op"
+  | .list [.atom "abstract", .list cs] =>
+    match cs.mapM clsStmt? with
+    | some cs =>
+      let tab := build cs
+      .list ((List.range tab.length).map (fun k =>
+        .list [ofBool (inspectAbstract tab k), ofBool (isabstract tab k),
+          .list (((tab[k]?).map (fun c => (c.abstracts.foldr insertNat []).eraseDups)).getD [] |>.map Sexp.ofNat)]))
+    | none => .atom "bad-op"
   | .list [.atom "bank", .list ms, .list ops] =>
     match ms.mapM module?, ops.mapM op? with
     | some w, some ops => .list (runOps w St.empty ops)
